@@ -7,7 +7,7 @@ from sim import invoker, fakevcs
 
 PLAIN = ["README.md", "README.rst", "setup.py"]
 CONFIGS = ["setup.cfg", "pyproject.toml", "bumpver.toml", ".bumpver.toml", "pycalver.toml"]
-KINDS = ["absent", "empty", "unrelated_nl", "unrelated_nonl", "section"]
+KINDS = ["absent", "empty", "unrelated_nl", "unrelated_nonl", "section", "section_crlf"]
 SPACE = (2 ** len(PLAIN)) * (len(KINDS) ** len(CONFIGS))
 DATES = [dt.datetime(2023, 6, 15, 12, 0, 0), dt.datetime(2023, 12, 31, 23, 59, 59), dt.datetime(2024, 1, 1, 0, 0, 1)]
 
@@ -89,6 +89,9 @@ class Init:
                 version = "%d.%d" % (2001 + i, 1001 + i)
                 sectioned[name] = version
                 files[name] = section(name, version)
+                if kind == "section_crlf":
+                    # the same section as written by an editor that uses CRLF line endings
+                    files[name] = files[name].replace(b"\n", b"\r\n")
         invoker.write_tree(d, files)
         if case.get("vcs") == "git":
             import os
